@@ -173,6 +173,16 @@ Wire ==
                               /\ trackedBefore + Cardinality(synLastStep \cup synThisStep) < cfg.max_total
                               /\ trackedBefore + Cardinality(synLastStep \cup synThisStep) < cfg.max_active
                            THEN Flag("C17", "refused-with-serverfull-while-capacity-available") ELSE {})
+                     \* ... "capacity becomes available again when connections end" by time-out too: established connections whose
+                     \* peer had been silent for the whole time-out already at the server step before the one that refused (the
+                     \* largest gap between server steps so far bounds how long ago that was) do not count
+                     \cup (IF fromS /\ Cur.type = "ERR" /\ Cur.err = "ServerFull"
+                           THEN LET overdue == {q \in Peers : /\ st[K("S", q)] = "conn" /\ closing[K("S", q)] = "" /\ discAt[K("S", q)] < 0
+                                                              /\ lastStep["s"] - maxGap["s"] >= lastHeard[K("S", q)] + T[K("S", q)]}
+                                    n == trackedBefore + Cardinality(synLastStep \cup synThisStep) - Cardinality(overdue)
+                                IN IF overdue # {} /\ n < cfg.max_total /\ n < cfg.max_active
+                                   THEN Flag("C17", "refused-with-serverfull-while-a-silent-connection-was-overdue-for-its-timeout") ELSE {}
+                           ELSE {})
                      \* a client confirms - by an ACK carrying the server's nonce - only a SYN-ACK that reached it and echoes the
                      \* nonce of its own SYN: anything else lets a forged or stale handshake create a connection at the server
                      \cup (IF ~fromS /\ Cur.type = "ACK" /\ p \in {"c0", "c1", "c2", "c3"} /\ cNonce[p] # NoNonce
